@@ -320,6 +320,24 @@ func c04Run(c *Ctx) {
 			}
 		}
 	}
+	// schemas whose id re-scopes a reference to themselves (by fragment, by the id's own file name)
+	for _, id := range []string{"x/s.json", "s.json", "sub/", "http://h/ids/s.json", "../s.json"} {
+		for _, self := range []string{"#/definitions/N0", "s.json", "placeholder.json", "x/s.json", "#"} {
+			if !mine(fmt.Sprint("idself", id, self)) {
+				continue
+			}
+			root := obj("swagger", "2.0", "info", obj("title", "t", "version", "1"), "paths", obj(),
+				"definitions", obj("N0", obj("id", id, "title", "T0", "properties", obj("p", obj("$ref", self)))))
+			b := &built{Docs: map[string]json.RawMessage{}, Root: docURLs[0], Feat: map[string]string{"family": "id-self-ref", "n": "1", "entry": "definition", "ids": id, "selfref": self}}
+			bb, _ := json.Marshal(root)
+			b.Docs[docURLs[0]] = bb
+			for _, o := range optCombos {
+				run(b, call{Fn: "ExpandSpec", Opts: o}, nil)
+			}
+			run(b, call{Fn: "ExpandSchemaWithBasePath", Elem: "/definitions/N0"}, nil)
+			run(b, call{Fn: "ExpandSchema", Elem: "/definitions/N0", Root: "generic"}, nil)
+		}
+	}
 	// scaling families
 	top := 7
 	if thorough {
